@@ -1,10 +1,39 @@
 (* C10 -- swaps and permutations realise exactly the requested wire permutation.
-   Property theorems only; proofs are in Core/PermLemmas.v. *)
+   Property theorems only; proofs are in Core/PermLemmas.v.  `route offs ws`
+   carries arbitrary labels ws on the wires through the boxes at offsets offs
+   (Core/Route.v), so "wire i goes to position p" is stated for every labelling. *)
 From Coq Require Import List ZArith Bool.
 Import ListNotations.
-Require Import DV.Common.Base DV.Core.Diagram DV.Core.Perm.
+Require Import DV.Common.Base DV.Core.Diagram DV.Core.WF DV.Core.Perm DV.Core.Route DV.Core.PermLemmas.
 Open Scope Z_scope.
 
+(* Diagram.swap(l, r): well-typed, l @ r -> r @ l, adjacent swaps only, and every
+   wire of l, in order, ends to the right of every wire of r -- for all types of
+   all lengths (including empty) and every labelling of the wires *)
+Theorem swap_moves_left_block_past_right_block : forall l r d,
+  dswap l r = Ok d ->
+  wf d /\ ddom d = l ++ r /\ dcod d = r ++ l /\ only_swaps d /\
+  offsets_in_range (length (l ++ r)) (doffs d) /\
+  forall (A : Type) (wl wr : list A), length wl = length l -> length wr = length r ->
+    route (doffs d) (wl ++ wr) = wr ++ wl.
+Proof. exact dswap_spec. Qed.
+Print Assumptions swap_moves_left_block_past_right_block.
+
+(* swapping two types is never refused *)
+Theorem swap_never_refused : forall l r, exists d, dswap l r = Ok d.
+Proof. exact dswap_total. Qed.
+Print Assumptions swap_never_refused.
+
+(* Diagram.permutation(perm, dom): well-typed, from dom, same width, adjacent
+   swaps only, and only returned for genuine permutations of matching length *)
+Theorem permutation_is_swap_network : forall perm dom d,
+  dpermutation perm dom = Ok d ->
+  wf d /\ ddom d = dom /\ length (dcod d) = length dom /\ only_swaps d /\
+  is_perm perm = true /\ len dom = len perm.
+Proof. exact dpermutation_spec. Qed.
+Print Assumptions permutation_is_swap_network.
+
+(* non-permutations and length mismatches are refused with ValueError *)
 Theorem permutation_refuses : forall perm dom,
   is_perm perm = false \/ len dom <> len perm ->
   dpermutation perm dom = Err ValueError.
@@ -16,3 +45,9 @@ Proof.
     apply Z.eqb_eq in E. contradiction.
 Qed.
 Print Assumptions permutation_refuses.
+
+(* Full statement of the wire map of permutations: carrying the label perm[i] on
+   input wire i, the labels arrive sorted, i.e. input wire i ends at position
+   perm[i].  NOT asserted here: see Core/PermWire.v for its proof status. *)
+Definition permutation_wire_map_stmt : Prop := forall perm dom d,
+  dpermutation perm dom = Ok d -> route (doffs d) perm = zrange 0 (length perm).
